@@ -15,6 +15,8 @@ def _compl(c):
 
 
 def ncs(z):
+    if abs(z) > 1e8:  # exp(-5e15): far below anything representable in f64
+        return (mpf(1), mpf(0)) if z > 0 else (mpf(0), mpf(1))
     return mp.ncdf(z), mp.ncdf(-z)
 
 
@@ -120,7 +122,10 @@ def _beta_cs(a, b, x, y):
     if y <= 0:
         return mpf(1), mpf(0)
     with mp.workdps(DPS + 60):
-        if x * (a + b) <= a:
+        def nterms(a_, b_, x_, y_):
+            hump = max(mpf(0), (x_ * (a_ + b_) - a_ - 1) / y_)
+            return hump + 250 / (-mp.log1p(-y_)) if y_ < 1 else mpf(0)
+        if nterms(a, b, x, y) <= nterms(b, a, y, x):
             c = _ibeta_series(a, b, x, y)
             s = 1 - c
         else:
@@ -257,27 +262,54 @@ def ref_invgauss(p, x):
 
 
 def ref_nig(p, x):
-    """integrate the NIG(alpha,beta,mu=0,delta=1) density (Bessel K1 form) on both sides of x"""
+    """NIG(alpha,beta,mu=0,delta=1) as normal variance-mean mixture:
+    F(x) = int_0^inf Phi((x - beta z)/sqrt z) f_IG(z; mean 1/gamma, shape 1) dz,  t = ln z, panel-wise tanh-sinh.
+    (Bessel-K1 density quadrature `ref_nig_density` is used as an independent cross-check on a subset.)"""
     al, be, xx = M(p[0]), M(p[1]), M(x)
-    ga = mp.sqrt(al * al - be * be)
+    ga = mp.sqrt((al - be) * (al + be))
+    c0 = 1 / mp.sqrt(2 * mp.pi)
 
-    def f(t):
-        r = mp.sqrt(1 + t * t)
-        # alpha K1(alpha r)/(pi r) exp(gamma + beta t)  with K1 scaled to avoid under/overflow
-        return al / (mp.pi * r) * mp.besselk(1, al * r) * mp.exp(ga + be * t)
+    def kern(t):
+        eh = mp.exp(t / 2)
+        q = ga * eh - 1 / eh
+        return c0 * mp.exp(-t / 2 - q * q / 2), xx / eh - be * eh
 
-    mean = be / ga
-    sd = mp.sqrt(al * al / ga ** 3)
-    core = [mean + s * k * sd for k in (0.25, 0.5, 1, 2, 3, 5, 8, 12, 20, 35, 60, 120, 300, 1000) for s in (-1, 1)]
-    unit = [mpf(s * k) for k in (0.5, 1, 2, 4) for s in (-1, 1)]  # the delta = 1 scale of sqrt(1+t^2)
-    near = [xx + s * k * sd for k in (0.1, 0.5) for s in (-1, 1)]
-    pts = sorted(set(core + unit + near + [mean, xx, mpf(0)]))
-    lo = [-mp.inf] + [q for q in pts if q < xx] + [xx]
-    hi = [xx] + [q for q in pts if q > xx] + [mp.inf]
-    c = quad_panels(f, lo)
-    s = quad_panels(f, hi)
-    assert abs(c + s - 1) < mpf(10) ** (-25), ("nig quad inconsistent", p, x, c + s - 1)
+    def fc(t):
+        k, w = kern(t)
+        return k * mp.ncdf(w)
+
+    def fs(t):
+        k, w = kern(t)
+        return k * mp.ncdf(-w)
+
+    tlo = -2 * mp.log(45 + ga)
+    thi = 2 * mp.log((45 + ga) / ga)
+    n = int(mp.ceil((thi - tlo) / mpf("0.4")))
+    pts = [tlo + (thi - tlo) * i / n for i in range(n + 1)]
+    c = quad_panels(fc, pts)
+    s = quad_panels(fs, pts)
+    assert abs(c + s - 1) < mpf(10) ** (-35), ("nig quad inconsistent", p, x, c + s - 1)
     return c, s
+
+
+def ref_nig_density(p, x, dps=22):
+    """cdf/sf by integrating the Bessel-K1 density (independent of the mixture representation)"""
+    with mp.workdps(dps):
+        al, be, xx = M(p[0]), M(p[1]), M(x)
+        ga = mp.sqrt((al - be) * (al + be))
+
+        def f(t):
+            r = mp.sqrt(1 + t * t)
+            return al / (mp.pi * r) * mp.besselk(1, al * r) * mp.exp(ga + be * t)
+
+        mean = be / ga
+        sd = mp.sqrt(al * al / ga ** 3)
+        core = [mean + s * k * sd for k in (0.5, 1, 2, 4, 8, 16, 40, 100, 400) for s in (-1, 1)]
+        unit = [mpf(s * k) for k in (1, 3) for s in (-1, 1)]
+        pts = sorted(set(core + unit + [mean, xx, mpf(0)]))
+        lo = [-mp.inf] + [q for q in pts if q < xx] + [xx]
+        hi = [xx] + [q for q in pts if q > xx] + [mp.inf]
+        return quad_panels(f, lo), quad_panels(f, hi)
 
 
 # ---------------------------------------------------------------- families: (ref fn, scipy dist maker, support, param sets)
@@ -380,8 +412,15 @@ def choose_xs(name, p):
 
 
 def _low(ref, p, x):
-    with mp.workdps(20):
-        return ref(p, x)
+    """cheap low-precision evaluation, used only for choosing abscissae (no cross-checks)"""
+    global CHECK_QUAD
+    old = CHECK_QUAD
+    CHECK_QUAD = False
+    try:
+        with mp.workdps(20):
+            return ref(p, x)
+    finally:
+        CHECK_QUAD = old
 
 
 def gen_family(name):
